@@ -159,6 +159,15 @@ def run(R, only_cases=None):
                        "admitted by the filter together with all their ancestors; non-trivial = inspection succeeded")
 
 
+def has_rank0_objarray(spec):
+    """an object array of shape () somewhere in the value spec"""
+    if isinstance(spec, list):
+        if len(spec) >= 2 and spec[0] == "objarray" and spec[1] == []:
+            return True
+        return any(has_rank0_objarray(x) for x in spec)
+    return False
+
+
 NINE = sorted(f"{show}/{t}" for show in ("all", "untrusted", "trusted") for t in ("none", "full", "half"))
 
 
@@ -175,7 +184,9 @@ def total_on_dumps(R, rnd):
              ["list", [["partial", "np.add", [["int", 1]], []]]],
              ["tuple", [["list", [["int", 1], ["str", "x"]]],
                         ["dict", [[["str", "a"], ["ref", 0]], [["int", 3], ["slice", ["int", 1], ["none"], ["int", 2]]]]],
-                        ["partial", "np.add", [["int", 1]], []], ["ref", 0]]]]
+                        ["partial", "np.add", [["int", 1]], []], ["ref", 0]]],
+             # C13-F1 (open): a rank-0 object array is dumped with the cell's state in place of a list: get_tree raises AttributeError
+             ["objarray", [], [["userobj", "Plain", [["attr", ["bytes", "00ff10"]], ["key_types", ["int", 1]]]]]]]
     specs += [GV.gen_value(rnd, supported=(i % 2 == 0)) for i in range(n)]
     shards = 8
     from concurrent.futures import ThreadPoolExecutor
@@ -193,11 +204,8 @@ def total_on_dumps(R, rnd):
         for k, rec in enumerate(o):
             spec = chunks[s][k]
             R.case({"dump-visualize": spec}, nontrivial=rec.get("dump") == "ok")
-            if rec.get("dump") == "ok" and rec.get("load") != "ok":
-                # impl_codec's roundtrip stops at a failing load(trusted=get_untrusted_types): such an archive is not visualized here
-                R.count("dumpvis:not-attempted:load-" + str(rec.get("load")))
-            elif rec.get("dump") == "ok" and sorted(rec.get("vis") or {}) != NINE:
-                # every archive that dumps wrote and load accepts is visualized in all nine (show x trusted) combinations
+            if rec.get("dump") == "ok" and sorted(rec.get("vis") or {}) != NINE:
+                # every archive dumps wrote is visualized in all nine (show x trusted) combinations, whatever load says
                 R.obligation_broken("C13 total_on_dumps", f"visualize was not attempted in all nine (show x trusted) combinations for {spec!r}: {sorted(rec.get('vis') or {})}")
             for key, v in (rec.get("vis") or {}).items():
                 nvis += 1
@@ -206,7 +214,10 @@ def total_on_dumps(R, rnd):
                     show, tname = key.split("/")
                     exc = v.split(":")[1]
                     why = "level-difference" if "level difference" in v or "While constructing" in v else ("key_types" if "key_types" in v else "other")
-                    R.violation({"kind": "visualize-raises-on-dump", "show": show if why == "level-difference" else None, "exc": exc, "why": why},
+                    sig = {"kind": "visualize-raises-on-dump", "show": show if why == "level-difference" else None, "exc": exc, "why": why}
+                    if has_rank0_objarray(spec):
+                        sig["site"] = "objarray-rank0"
+                    R.violation(sig,
                                 f"visualize(dumps(obj), show={show!r}, trusted={tname}) raised {v[7:]}", {"spec": spec, "show": show, "trusted": tname})
     R.notes["visualize_calls_on_real_dumps"] = nvis
 
@@ -221,7 +232,7 @@ def replay(R, rep):
         R.prove("C13")
         p = C.run_impl("impl_codec.py", input_obj={"mode": "roundtrip", "cases": [{"cycles": 0, "vis": True}, rep["replay"]["spec"]]})
         rec = json.loads(p.stdout)[0]
-        if rec.get("dump") == "ok" and rec.get("load") == "ok" and sorted(rec.get("vis") or {}) != NINE:
+        if rec.get("dump") == "ok" and sorted(rec.get("vis") or {}) != NINE:
             R.obligation_broken("C13 total_on_dumps", f"replay: not all nine combinations attempted: {sorted(rec.get('vis') or {})}")
         for key, v in (rec.get("vis") or {}).items():
             if v != "ok":
